@@ -755,7 +755,9 @@ class AIPDDLConverter:
                 for action_name, cost in self._action_costs.items():
                     action_costs[self._up_problem.action(action_name)] = cost
                 self._up_problem.add_quality_metric(
-                    MinimizeActionCosts(action_costs, self._em.Int(0))
+                    MinimizeActionCosts(
+                        action_costs, self._em.Int(0), self._environment
+                    )
                 )
         elif self._problem is not None:
             metric = self._problem.metric
@@ -767,9 +769,11 @@ class AIPDDLConverter:
                 if metric.optimization == Metric.MINIMIZE:
                     up_metric: Union[
                         MinimizeExpressionOnFinalState, MaximizeExpressionOnFinalState
-                    ] = MinimizeExpressionOnFinalState(expression)
+                    ] = MinimizeExpressionOnFinalState(expression, self._environment)
                 else:
-                    up_metric = MaximizeExpressionOnFinalState(expression)
+                    up_metric = MaximizeExpressionOnFinalState(
+                        expression, self._environment
+                    )
                 self._up_problem.add_quality_metric(up_metric)
 
     def convert(self) -> UPProblem:
